@@ -782,6 +782,10 @@ class Blockwise(ArrayExpr):
 
                         if br is None:
                             arg_slices.append(slice(None))
+                        elif len(arg.chunks[dim_idx]) == 1 and len(out_chunks[out_pos]) > 1:
+                            # One block broadcast against many: every output
+                            # block reads it whole
+                            arg_slices.append(slice(None))
                         else:
                             first, last = br
                             if last < first:  # Empty
